@@ -1,13 +1,13 @@
 #!/bin/sh
 # usage: verify_seed.sh <Cxx> <k>   -- confirm an agent-produced mutation in its scratch worktree, then keep it
-ID=$1; K=$2; W=/tmp/seed/$ID; O=/tmp/seed/$ID.out/m$K; D=/verif/seeded/$ID-m$K
+ID=$1; K=$2; R=${SEEDROOT:-/tmp/seed}; PFX=${SEEDPFX:-m}; W=$R/$ID; O=$R/$ID.out/m$K; D=/verif/seeded/$ID-$PFX$K
 cd $W || exit 2
 git checkout -q -- . ; git clean -fdq
 git apply --check $O/patch.diff || { echo "$ID m$K: patch does not apply"; exit 2; }
-PYTHONPATH=$W /venv/bin/python $O/demo.py >/tmp/seed/$ID.m$K.clean.log 2>&1; C=$?
+PYTHONPATH=$W /venv/bin/python $O/demo.py >$R/$ID.m$K.clean.log 2>&1; C=$?
 git apply $O/patch.diff
 T=$(/venv/bin/python -m pytest -q -p no:cacheprovider 2>&1 | tail -1)
-PYTHONPATH=$W /venv/bin/python $O/demo.py >/tmp/seed/$ID.m$K.mut.log 2>&1; M=$?
+PYTHONPATH=$W /venv/bin/python $O/demo.py >$R/$ID.m$K.mut.log 2>&1; M=$?
 git checkout -q -- . ; git clean -fdq
 echo "$ID m$K: clean-demo-exit=$C mutated-demo-exit=$M tests='$T'"
 case "$T" in *"122 passed"*) ;; *) echo "  REJECT: tests changed"; exit 1;; esac
